@@ -13,7 +13,17 @@
 //! g = 1 iff add/update revive a tombstoned key (C09's F09 repair), j = 1 iff Drop joins an
 //! in-flight writer first (F12 repair); both are probed from the implementation.
 //!
+//!   persist editor g<G>j<J> <init> <tok,…> => <obs> …   the same through a real `Editor` (user
+//!         dictionary behind `Layered`): LK / lK `learn_phrase` (syllables known / not known to the
+//!         system dictionary), UK `unlearn_phrase`, k a key event (`process_keyevent`, whose tail calls
+//!         `reopen(); flush()` after a change), c d w as above; only files and the writer position
+//!         are observable there.
+//!
 //! ORACLE (on the real files, independent of the model):
+//!   live     an accepted change shows in the live entries; no other call, writer step or part of
+//!            Drop alters them (the tombstone rule, finding F09 of C09, is not judged here).
+//!   joins    on a sample of the joins of Drop reached with the writer still parked, Drop is released
+//!            first and must block.
 //!   atomic   after every step the file at the path loads and holds either what it held one step
 //!            earlier or the contents captured when the in-flight writer was spawned; its inode
 //!            changes only across the rename step; after `_exit` it equals what it was before.
@@ -21,6 +31,10 @@
 use chewing::dictionary::{
     Dictionary, DictionaryBuilder, DictionaryMut, Phrase, Trie, TrieBuf, TrieBuilder,
 };
+use chewing::conversion::ChewingEngine;
+use chewing::dictionary::Layered;
+use chewing::editor::keyboard::{KeyCode, KeyboardLayout, Qwerty};
+use chewing::editor::{AbbrevTable, BasicEditor, Editor, LaxUserFreqEstimate, SymbolSelector};
 use chewing::verif;
 use chewing::zhuyin::{Bopomofo, Syllable};
 use std::collections::{BTreeMap, HashMap, HashSet};
@@ -32,6 +46,11 @@ use std::thread::{self, JoinHandle, ThreadId};
 use std::time::{Duration, Instant};
 use vharness::*;
 
+/// joins of `Drop` reached with the writer still parked, over the whole run (a sample of them is
+/// probed for actually blocking)
+static JOINS_SEEN: std::sync::atomic::AtomicU32 = std::sync::atomic::AtomicU32::new(0);
+/// probed variant: add/update revive a tombstoned key (C09's F09 repair)
+static REVIVE: std::sync::atomic::AtomicBool = std::sync::atomic::AtomicBool::new(false);
 const WRITER: usize = 0;
 const DROPPER: usize = 1;
 const WAIT: Duration = Duration::from_secs(8);
@@ -160,6 +179,20 @@ fn write_initial(path: &Path, c: &Content) {
     b.build(path).unwrap();
 }
 
+/// `Editor` holds `Box<dyn …>` without a `Send` bound; it is built on the controller thread and
+/// only *dropped* on the dropper thread (nothing in it has thread affinity)
+struct SendBox<T>(T);
+unsafe impl<T> Send for SendBox<T> {}
+impl<T> SendBox<T> {
+    fn into_inner(self) -> T {
+        self.0
+    }
+}
+
+fn thread_count() -> usize {
+    std::fs::read_dir("/proc/self/task").map(|d| d.count()).unwrap_or(0)
+}
+
 /// the independent reader: `Trie::open` + `entries`
 fn read_file(p: &Path) -> Option<Content> {
     let t = Trie::open(p).ok()?;
@@ -267,6 +300,11 @@ enum P {
     Open,
     W(u32),
     Crash,
+    /// editor tier: `learn_phrase` (bool: the system dictionary knows the syllables)
+    Learn(u32, bool),
+    Unlearn(u32),
+    /// editor tier: a key event (`process_keyevent`)
+    Key,
 }
 
 fn plan_text(p: &[P]) -> String {
@@ -282,6 +320,10 @@ fn plan_text(p: &[P]) -> String {
             P::Open => "o".into(),
             P::W(n) => format!("W{}", n),
             P::Crash => "x".into(),
+            P::Learn(k, true) => format!("L{}", k),
+            P::Learn(k, false) => format!("l{}", k),
+            P::Unlearn(k) => format!("U{}", k),
+            P::Key => "k".into(),
         })
         .collect::<Vec<_>>()
         .join(",")
@@ -307,6 +349,10 @@ fn parse_plan(s: &str) -> Vec<P> {
                 "o" => P::Open,
                 "W" => P::W(r.parse().unwrap()),
                 "x" => P::Crash,
+                "L" => P::Learn(r.parse().unwrap(), true),
+                "l" => P::Learn(r.parse().unwrap(), false),
+                "U" => P::Unlearn(r.parse().unwrap()),
+                "k" => P::Key,
                 _ => panic!("bad token {t}"),
             }
         })
@@ -337,6 +383,9 @@ struct Exec {
     gate: Arc<Gate>,
     path: PathBuf,
     dict: Option<TrieBuf>,
+    /// editor tier: the dictionary is owned by an `Editor` (behind `Layered`), no state accessor
+    editor: Option<Editor>,
+    editor_tier: bool,
     dropper: Option<JoinHandle<()>>,
     realised: Vec<String>,
     obs: Vec<String>,
@@ -345,6 +394,13 @@ struct Exec {
     prev_ino: u64,
     snap: Option<String>,
     last_live: String,
+    live: Content,
+    grave: Vec<u32>,
+    joins_probed: u32,
+    /// editor tier: keys learned and not unlearned since
+    ed_expected: std::collections::BTreeSet<u32>,
+    ed_unlearned: std::collections::BTreeSet<u32>,
+    ed_f09: bool,
     pre_close: (bool, Option<bool>),
     join_first: Option<bool>,
     failures: Vec<Failure>,
@@ -354,17 +410,44 @@ struct Exec {
 
 impl Exec {
     fn new(dir: &Path, init: &str, child: bool) -> Exec {
+        Exec::new_tier(dir, init, child, false)
+    }
+
+    fn new_tier(dir: &Path, init: &str, child: bool, editor_tier: bool) -> Exec {
         let path = dir.join("chewing.dat");
         let c = init_content(init);
         write_initial(&path, &c); // before the callback is installed
         let gate = Arc::new(Gate { m: Mutex::new(G::default()), cv: Condvar::new() });
         install(&gate, thread::current().id());
         let dict = TrieBuf::open(&path).expect("open");
+        let (dict, editor) = if editor_tier {
+            // system dictionary: the syllable of keys 0 and 1 is known, nothing else
+            let (s0, p0) = key_of(0);
+            let (_, p1) = key_of(1);
+            // (a plain `Trie`: a `TrieBuf` here would run its own `Drop` through the hooks)
+            let mut b = TrieBuilder::new();
+            b.insert(&s0, Phrase::new(p0, 100)).unwrap();
+            b.insert(&s0, Phrase::new(p1, 50)).unwrap();
+            let mut bytes = vec![];
+            b.write(&mut bytes).expect("sys dict");
+            let sys = Trie::new(std::io::Cursor::new(bytes)).expect("sys dict");
+            let layered = Layered::new(vec![Box::new(sys)], Box::new(dict));
+            let ed = Editor::new(
+                Box::new(ChewingEngine::new()),
+                layered,
+                LaxUserFreqEstimate::new(0),
+                AbbrevTable::new(),
+                SymbolSelector::new(std::io::Cursor::new(&b""[..])).expect("symbols"),
+            );
+            (None, Some(ed))
+        } else {
+            (Some(dict), None)
+        };
         let f = fmt_content(&c);
         let ino = std::fs::metadata(&path).map(|m| m.ino()).unwrap_or(0);
         Exec {
-            gate, path, dict: Some(dict), dropper: None, realised: vec![], obs: vec![],
-            prev_f: f.clone(), prev_ino: ino, snap: None, last_live: f, pre_close: (false, None), join_first: None,
+            gate, path, dict, editor, editor_tier, dropper: None, realised: vec![], obs: vec![],
+            prev_f: f.clone(), prev_ino: ino, snap: None, last_live: f, live: c.clone(), grave: vec![], joins_probed: 0, ed_expected: c.keys().cloned().collect(), ed_unlearned: Default::default(), ed_f09: false, pre_close: (false, None), join_first: None,
             failures: vec![], timed_out: false, child,
         }
     }
@@ -442,6 +525,7 @@ impl Exec {
         let f = self.file_state();
         let t = self.tmp_state();
         let wr = self.parked(WRITER);
+        let mut live_fail: Option<String> = None;
         let o = if let Some(d) = &self.dict {
             let st = d.verif_persist_state();
             let h = match st.writer {
@@ -461,12 +545,65 @@ impl Exec {
             if nbig > 0 {
                 grs.push(format!("#{}", nbig));
             }
-            let gr = if grs.is_empty() { "e".to_string() } else { grs.join("+") };
-            self.last_live = fmt_content(&keys().fold(d.entries()));
-            format!("{}:{}{}:{}:{}:{}:{}:{}", ret, st.dirty as u8, h, fmt_content(&base), fmt_content(&pend), gr, f, t)
+            let gr_s = if grs.is_empty() { "e".to_string() } else { grs.join("+") };
+            // ---- oracle: an accepted change shows in the live entries, nothing else alters them
+            let nl = keys().fold(d.entries());
+            let mut want = self.live.clone();
+            let kind = &tok[..1];
+            let kv = |t: &str| -> (u32, u32) {
+                let (k, v) = t[1..].split_once('.').unwrap();
+                (k.parse().unwrap(), v.parse().unwrap())
+            };
+            let mut hidden_by_tombstone = false;
+            match kind {
+                "a" | "u" if ret == "k" => {
+                    let (k, v) = kv(&tok);
+                    // the tombstone rule is C09's finding F09: not judged here
+                    hidden_by_tombstone = self.grave.contains(&k) && !nl.contains_key(&k);
+                    want.insert(k, (v, 1000 + v as u64));
+                }
+                "r" => {
+                    want.remove(&tok[1..].parse::<u32>().unwrap());
+                }
+                "o" => {
+                    want = read_file(&self.path).unwrap_or_default();
+                }
+                _ => {}
+            }
+            let live_bad = if hidden_by_tombstone {
+                let (k, _) = kv(&tok);
+                want.remove(&k);
+                want != nl
+            } else {
+                want != nl
+            };
+            self.live = nl.clone();
+            self.grave = gr.clone();
+            self.last_live = fmt_content(&nl);
+            if live_bad {
+                live_fail = Some(format!("live: after `{}` the dictionary shows {} but the accepted changes give {}", tok, fmt_content(&nl), fmt_content(&want)));
+            }
+            format!("{}:{}{}:{}:{}:{}:{}:{}", ret, st.dirty as u8, h, fmt_content(&base), fmt_content(&pend), gr_s, f, t)
+        } else if self.editor_tier {
+            if let Some(ed) = self.editor.as_mut() {
+                self.last_live = fmt_content(&keys().fold(ed.user_dict().entries()));
+            }
+            let keys_only = |x: &str| -> String {
+                // `0.5+3.1/0` -> `0+3`; `!`, `?`, `e`, `-`, `p` unchanged; `c=…` keeps its tag
+                let (tag, body) = match x.strip_prefix("c=") { Some(b) => ("c=", b), None => ("", x) };
+                if body.contains('.') {
+                    format!("{}{}", tag, body.split('+').map(|e| e.split('.').next().unwrap()).collect::<Vec<_>>().join("+"))
+                } else {
+                    x.to_string()
+                }
+            };
+            format!("{}:{}:{}:{}", ret, wr.map(pc_name).unwrap_or("-"), keys_only(&f), keys_only(&t))
         } else {
             format!("{}:~{}:{}:{}", ret, wr.map(pc_name).unwrap_or("-"), f, t)
         };
+        if let Some(m) = live_fail {
+            self.fail("new", m);
+        }
         // ---- oracle: atomic replacement, evaluated on the real file
         let ino = std::fs::metadata(&self.path).map(|m| m.ino()).unwrap_or(0);
         if f == "!" || f == "?" {
@@ -500,6 +637,7 @@ impl Exec {
     /// one writer step; false if no writer is parked
     fn step_writer(&mut self) -> bool {
         let Some(pt) = self.parked(WRITER) else { return false };
+        let tc = thread_count();
         self.release(WRITER);
         if self.timed_out {
             return false;
@@ -511,6 +649,16 @@ impl Exec {
             while d.verif_persist_state().writer != Some(true) {
                 if t0.elapsed() > WAIT {
                     self.timeout("writer released from its last point never finished".into());
+                    break;
+                }
+                thread::yield_now();
+            }
+        } else if self.editor.is_some() {
+            // no accessor behind `Layered`: the writer has finished once its OS thread is gone
+            let t0 = Instant::now();
+            while thread_count() >= tc {
+                if t0.elapsed() > WAIT {
+                    self.timeout("writer released from its last point never exited".into());
                     break;
                 }
                 thread::yield_now();
@@ -554,6 +702,49 @@ impl Exec {
                     let ret = d.reopen().is_ok();
                     self.observe("s".into(), if ret { "k" } else { "e" }, None);
                 }
+                P::Learn(k, _) | P::Unlearn(k) => {
+                    let Some(ed) = self.editor.as_mut() else { continue };
+                    let (s, p) = key_of(*k);
+                    let (ret, tok) = match t {
+                        P::Learn(_, sys) => (ed.learn_phrase(&s, &p).is_ok(), format!("{}{}", if *sys { "L" } else { "l" }, k)),
+                        _ => (ed.unlearn_phrase(&s, &p).is_ok(), format!("U{}", k)),
+                    };
+                    if matches!(t, P::Learn(..)) {
+                        if self.ed_unlearned.contains(k) && !REVIVE.load(std::sync::atomic::Ordering::Relaxed) {
+                            // learning a phrase again after unlearning it stays hidden behind the tombstone:
+                            // finding F09 of property C09, not judged here
+                            self.ed_f09 = true;
+                        }
+                        self.ed_expected.insert(*k);
+                    } else {
+                        self.ed_expected.remove(k);
+                        self.ed_unlearned.insert(*k);
+                    }
+                    self.observe(tok, if ret { "k" } else { "e" }, None);
+                }
+                P::Key => {
+                    let mark = self.log_len();
+                    let Some(ed) = self.editor.as_mut() else { continue };
+                    ed.process_keyevent(Qwerty.map(KeyCode::Esc));
+                    self.after_possible_spawn(mark);
+                    self.observe("k".into(), "-", None);
+                }
+                P::Close if self.editor_tier => {
+                    let Some(ed) = self.editor.take() else { continue };
+                    let ed = SendBox(ed);
+                    let gate = self.gate.clone();
+                    self.dropper = Some(thread::spawn(move || {
+                        gate.m.lock().unwrap().dropper_id = Some(thread::current().id());
+                        drop(ed.into_inner())
+                    }));
+                    let h = self.dropper.take().unwrap();
+                    let p = self.wait_parked(DROPPER, Some(&h));
+                    self.dropper = Some(h);
+                    if self.join_first.is_none() {
+                        self.join_first = Some(p == Some("drop.join0"));
+                    }
+                    self.observe("c".into(), "-", None);
+                }
                 P::Close => {
                     let Some(d) = self.dict.take() else { continue };
                     let st = d.verif_persist_state();
@@ -576,15 +767,42 @@ impl Exec {
                         continue;
                     }
                     let Some(pt) = self.parked(DROPPER) else { continue };
+                    let mut released = false;
                     if pt == "drop.join0" || pt == "drop.join" {
-                        // a join returns only once the writer has finished: drain it first
+                        // a join returns only once the writer has finished.  On a sample of the joins
+                        // reached with the writer still parked, let Drop go first and see that it blocks.
+                        if let Some(wpt) = self.parked(WRITER) {
+                            let n = JOINS_SEEN.fetch_add(1, std::sync::atomic::Ordering::Relaxed) + 1;
+                            if n <= 60 || n % 16 == 0 {
+                                self.joins_probed += 1;
+                                let h = self.dropper.take().unwrap();
+                                self.release(DROPPER);
+                                released = true;
+                                let t0 = Instant::now();
+                                let mut passed = false;
+                                while t0.elapsed() < Duration::from_millis(4) {
+                                    if h.is_finished() || self.parked(DROPPER).is_some() {
+                                        passed = true;
+                                        break;
+                                    }
+                                    thread::yield_now();
+                                }
+                                self.dropper = Some(h);
+                                if passed && self.parked(WRITER) == Some(wpt) {
+                                    let f = self.file_state();
+                                    self.fail("new", format!("durable: Drop passed `{}` while the snapshot writer was still running (parked at {}); the file holds {} and the live entries were {}",
+                                        pt, wpt, f, self.last_live));
+                                }
+                            }
+                        }
+                        // drain the writer: the join takes effect when it has finished
                         while self.step_writer() {}
                         if self.timed_out {
                             continue;
                         }
                     }
                     let h = self.dropper.take().unwrap();
-                    self.finish_d(h);
+                    self.finish_d(h, released);
                 }
                 P::Open => {
                     if self.dict.is_some() || self.dropper.is_some() {
@@ -622,16 +840,24 @@ impl Exec {
         }
     }
 
-    fn finish_d(&mut self, h: JoinHandle<()>) {
+    fn finish_d(&mut self, h: JoinHandle<()>, released: bool) {
         let mark = self.log_len();
-        self.release(DROPPER);
+        if !released {
+            self.release(DROPPER);
+        }
         let p = self.wait_parked(DROPPER, Some(&h));
         if p.is_none() && !self.timed_out {
             // Drop has returned: the dictionary is closed
             let _ = h.join();
             self.observe("d".into(), "-", None);
             let f = self.prev_f.clone();
-            if f != self.last_live {
+            if self.editor_tier {
+                let have: std::collections::BTreeSet<u32> = read_file(&self.path).unwrap_or_default().keys().cloned().collect();
+                if (have != self.ed_expected && !self.ed_f09) || f != self.last_live {
+                    self.fail("new", format!("durable(editor): after the editor was dropped the file holds {} (keys {:?}) but the learned phrases are {:?} and the user dictionary showed {}",
+                        f, have, self.ed_expected, self.last_live));
+                }
+            } else if f != self.last_live {
                 let f12 = self.join_first == Some(false) && self.pre_close.0 && self.pre_close.1 == Some(false);
                 let class = if f12 { "F12-drop-inflight" } else { "new" };
                 self.fail(class, format!("durable: after flush and close the file holds {} but the live entries before close were {} (at close: dirty={}, writer={:?})",
@@ -660,6 +886,7 @@ impl Exec {
             }
         }
         self.dict = None; // free-running Drop on the controller thread
+        self.editor = None;
         verif::set_callback(None);
     }
 }
@@ -832,6 +1059,27 @@ impl Ctx {
         self.emit(init, &ex.realised, &ex.obs, &ex.failures, ex.timed_out, &plan_text(plan));
     }
 
+    fn exec_editor(&mut self, init: &str, plan: &[P]) {
+        let dir = scratch(self.fast);
+        let mut ex = Exec::new_tier(dir.path(), init, false, true);
+        ex.run(plan);
+        ex.cleanup();
+        self.n_run += 1;
+        let toks = ex.realised.join(",");
+        for f in &ex.failures {
+            self.n_fail += 1;
+            self.out.oracle_fail("C10", &f.class, &format!("editor init={} schedule={} plan={} :: {}", init, toks, plan_text(plan), f.what));
+        }
+        if ex.timed_out {
+            self.n_timeouts += 1;
+        }
+        if self.seen.insert(format!("editor {} {}", init, toks)) {
+            self.n_distinct += 1;
+            *self.cover.entry("editor".into()).or_insert(0) += 1;
+            self.out.rec(&format!("persist editor g{}j{} {} {} => {}", self.g, self.j, init, toks, ex.obs.join(" ")));
+        }
+    }
+
     fn emit(&mut self, init: &str, realised: &[String], obs: &[String], failures: &[Failure], timed_out: bool, plan: &str) {
         let toks = realised.join(",");
         if timed_out {
@@ -938,12 +1186,19 @@ fn main() {
         cx.j = ex.join_first.unwrap_or(false) as u8;
         ex.cleanup();
     }
+    REVIVE.store(cx.g == 1, std::sync::atomic::Ordering::Relaxed);
     cx.out.stat("variant_revive_tombstone", cx.g);
     cx.out.stat("variant_drop_joins_first", cx.j);
     if args.len() >= 4 && args[1] == "--one" {
         // replay of a single plan: persist --one <init> <plan>
         let plan = parse_plan(&args[3]);
-        if plan.last() == Some(&P::Crash) { cx.crash(&args[2], &plan) } else { cx.exec(&args[2], &plan) }
+        if plan.iter().any(|t| matches!(t, P::Learn(..) | P::Unlearn(_) | P::Key)) {
+            cx.exec_editor(&args[2], &plan)
+        } else if plan.last() == Some(&P::Crash) {
+            cx.crash(&args[2], &plan)
+        } else {
+            cx.exec(&args[2], &plan)
+        }
         cx.out.flush();
         return;
     }
@@ -970,6 +1225,41 @@ fn main() {
         }
         p.extend([P::Close, P::D, P::D, P::D, P::D, P::Open, P::Upd(3, 9), P::Sync, P::Flush, P::Close, P::D, P::D, P::D, P::D]);
         cx.exec("e", &p);
+    }
+
+    // ---- 1b. editor tier: learn / unlearn / key events through a real `Editor` over a file-backed user
+    // dictionary, the writer advanced between them, the editor dropped at every writer position
+    {
+        let ops: Vec<Vec<P>> = vec![
+            vec![P::Learn(0, true)],
+            vec![P::Learn(3, false)],
+            vec![P::Learn(0, true), P::Learn(3, false)],
+            vec![P::Learn(3, false), P::Learn(3, false)],
+            vec![P::Learn(0, true), P::Unlearn(0)],
+            vec![P::Unlearn(2), P::Learn(1, true)],
+        ];
+        let advs: Vec<u32> = if thorough { (0..=STEPS).collect() } else { vec![0, 2, 5, 9] };
+        let advs2: Vec<u32> = if thorough { vec![0, 3, 6, 9] } else { vec![0, 9] };
+        cx.fast = true;
+        for init in ["e", "0.7+2.5"] {
+            for a in &ops {
+                for b in &ops {
+                    for n in &advs {
+                        for m in advs2.clone() {
+                            // a, key, [writer n], b, key, [writer m], drop
+                            let mut p = a.clone();
+                            p.push(P::Key);
+                            if *n > 0 { p.push(P::W(*n)); }
+                            p.extend(b.iter().cloned());
+                            p.push(P::Key);
+                            if m > 0 { p.push(P::W(m)); }
+                            p.extend([P::Close, P::D, P::D, P::D, P::D]);
+                            cx.exec_editor(init, &p);
+                        }
+                    }
+                }
+            }
+        }
     }
 
     // ---- 2. enumeration
